@@ -1,4 +1,5 @@
 import QModel.Core
+import QGen.C13
 /-!
 # C13 — no hidden state, no operand mutation: the stateful parts of quara as explicit state machines
 
@@ -97,12 +98,24 @@ def CacheOk {T : Type} (tbl : Key → T) (s : Cache T) : Prop := ∀ k v, s k = 
 
 /-! ## (b) loss objects -/
 
-/-- `mode_weight`. `invCov` stands for `inverse_sample_covariance` / `inverse_unbiased_covariance`
-(the weights computed from the data are a parameter); `ignored` is `unbiased_inverse_covariance`, which the option
-constructor accepts and `_set_weights_by_mode` has no branch for. -/
+/-- `mode_weight`, by what `_set_weights_by_mode` does with it. `invCov` stands for the three spellings of the
+inverse-covariance modes (the weights computed from the data are a parameter). Every mode string the option constructors
+accept falls into one of the three (`gen_modes_handled` in QProps, about the regenerated branch tables). -/
 inductive Mode
-  | identity | custom | invCov | ignored
+  | identity | custom | invCov
 deriving DecidableEq, Repr
+
+/-- the action names of the generated branch table (`QGen.C13.wseBranches`) -/
+def Mode.action : Mode → String
+  | .identity => "reset" | .custom => "option" | .invCov => "computed"
+
+/-- mode string → model mode, through the generated `_set_weights_by_mode` chain of the squared-error loss -/
+def modeOfString (m : String) : Option Mode :=
+  match (QGen.C13.wseBranches.find? (·.1.contains m)).map (·.2) with
+  | some "reset" => some .identity
+  | some "option" => some .custom
+  | some "computed" => some .invCov
+  | _ => none
 
 /-- the arguments of one `set_from_standard_qtomography_option_data` call.
 `A` : what `qt.calc_matA(), qt.calc_vecB()` return; `Q` : the empirical distributions; `W` : a list of weight matrices. -/
@@ -152,7 +165,6 @@ def lstep {A Q W : Type} (s : Loss A Q W) : LOp A Q W → Loss A Q W
       | .identity => setWeights s none                   -- set_weight_matrices(None)
       | .custom => setWeights s (s.option.bind (·.2))    -- set_weight_matrices(self.option.weights)
       | .invCov => setWeights s (some dw)
-      | .ignored => s                                    -- no branch: the weights of an earlier call stay
 
 /-- the setter calls of `set_from_standard_qtomography_option_data`, in the order the code issues them -/
 def cfgOps {A Q W : Type} (c : Cfg A Q W) : List (LOp A Q W) :=
@@ -225,7 +237,7 @@ def valueFast (s : Nat) (st : Loss (List (List K) × List K) (List K) (List (Lis
 def valueGen (s : Nat) (st : Loss (List (List K) × List K) (List K) (List (List (List K)))) (var : List K) : Option K := do
   let ab ← st.matA
   let q ← st.q
-  wseValueGen s (q.length / s) ab.1 ab.2 var q st.weights
+  if s = 0 then none else wseValueGen s (q.length / s) ab.1 ab.2 var q st.weights
 end wse
 
 /-! ## (c) algorithm object -/
@@ -313,16 +325,17 @@ def reshapeHss (m n : Nat) (x : List K) : List (List (List K)) :=
 
 /-- `convert_var_to_hss`: with the flag the first row of the last matrix is reconstructed and a *new* array is made
 (`copy.copy`, `np.insert`); without the flag the matrices are views of a **copy** of `var` (`copy.copy(var)`).
-The Bool says whether the result aliases the argument — it no longer does in either branch. -/
-def varToHss (n m : Nat) (flag : Bool) (var : List K) : List (List (List K)) × Bool :=
+Whether the returned matrices alias the argument is NOT decided here: `alias = (bit for the flag branch, bit for the
+other branch)` is read off the source by the translator (`QGen.C13.hssAliasFlagTrue / hssAliasFlagFalse`). -/
+def varToHss (alias : Bool × Bool) (n m : Nat) (flag : Bool) (var : List K) : List (List (List K)) × Bool :=
   if flag then
     let hsSize := n * n
     let sumFirst := (List.range (m - 1)).foldl (fun acc o => vadd acc ((var.drop (hsSize * o)).take n))
       (List.replicate n 0)
     let firstRowLast := vsub (e0 n) sumFirst
     let vector := var.take (hsSize * (m - 1)) ++ firstRowLast ++ var.drop (hsSize * (m - 1))
-    (reshapeHss m n vector, false)
-  else (reshapeHss m n var, false)
+    (reshapeHss m n vector, alias.1)
+  else (reshapeHss m n var, alias.2)
 
 /-- `convert_hss_to_var` -/
 def hssToVar (flag : Bool) (hss : List (List (List K))) : List K :=
@@ -342,8 +355,8 @@ def projRows (n : Nat) (invm : K) (hss : List (List (List K))) : List (List (Lis
 
 /-- result and the content of the *argument array* after the call. `m` = number of outcomes
 (`var.shape[0] // hs_size (+ 1)` in the code, resolved by the caller), `n = dim²`. -/
-def projEqWithVar (n m : Nat) (invm : K) (flag : Bool) (var : List K) : List K × List K :=
-  let (hss, aliased) := varToHss n m flag var
+def projEqWithVar (alias : Bool × Bool) (n m : Nat) (invm : K) (flag : Bool) (var : List K) : List K × List K :=
+  let (hss, aliased) := varToHss alias n m flag var
   let newHss := projRows n invm hss
   let newVar := hssToVar flag newHss
   -- the in-place `hs[0] -= …` writes through the views; they alias the argument only if `aliased`
@@ -401,8 +414,8 @@ def parseW? (s : Nat) (t : String) : Option (Option RW) :=
       some (some ((List.range k).map fun b =>
         (List.range s).map fun r => (xs.drop (b * s * s + r * s)).take s))
 
-def parseMode? : String → Option Mode
-  | "i" => some .identity | "c" => some .custom | "v" => some .invCov | "u" => some .ignored | _ => none
+/-- the mode string as the harness passes it to the option constructor, resolved through the generated branch table -/
+def parseMode? (m : String) : Option Mode := modeOfString m
 
 /-- one dataset: `mode|optW|dataW|grad|A|b|q` -/
 def parseCfg? (s nvar : Nat) (t : String) : Option (Cfg (List (List Rat) × List Rat) (List Rat) RW) :=
@@ -495,7 +508,7 @@ def handle (args : List String) : Option String :=
       let var ← parseList? parseRat? var
       if m = 0 then none else
       let flag := flag = "1"
-      let r := projEqWithVar n m ((1 : Rat) / (m : Rat)) flag var
+      let r := projEqWithVar (QGen.C13.hssAliasFlagTrue, QGen.C13.hssAliasFlagFalse) n m ((1 : Rat) / (m : Rat)) flag var
       some (showList showRat r.1 ++ " " ++ showList showRat r.2)
   | _ => none
 
